@@ -51,9 +51,10 @@ class Registry:
             self.named_sorts.setdefault(cls, REF(cls))
         self.ghost_fields |= other.ghost_fields
         for k in ("ctor_fields", "ctor_defaults", "spec_functions", "store_hooks", "ghost_deps", "ghost_init", "iter_fields", "order_keys", "object_models",
-                  "external_models", "constants"):
+                  "external_models", "constants", "ctypes"):
             for a, b in getattr(other, k).items():
                 getattr(self, k).setdefault(a, b)
+        self.pointees |= other.pointees
         import copy
         for q in names:
             c = copy.copy(other.contracts[q])
